@@ -2,10 +2,17 @@
 // adopted background goroutines of the mint) at the granularity of MintDB and Lightning calls.
 // One execution = one choice sequence; the explorer (explore.go) enumerates choice sequences by iterative
 // preemption bounding.
+//
+// Real locks in the code under test are handled by inspecting goroutine wait states (runtime.Stack): a resumed
+// thread that blocks in sync.Mutex.Lock / RWMutex before reaching its next point is marked blocked (disabled) until
+// the holder releases the lock; "no enabled thread while some are unfinished" is reported as a deadlock.
 package sched
 
 import (
+	"bytes"
 	"fmt"
+	"runtime"
+	"strconv"
 	"sync"
 	"sync/atomic"
 	"time"
@@ -16,13 +23,15 @@ import (
 const watchdog = 30 * time.Second
 
 type thread struct {
-	id     int
-	name   string
-	gid    int64
-	resume chan struct{}
-	at     string // point it is parked at
-	done   bool
+	id      int
+	name    string
+	gid     int64
+	resume  chan struct{}
+	at      string // point it is parked at
+	done    bool
 	adopted bool
+	blocked bool // blocked on a lock held by a parked thread
+	parked  bool
 }
 
 type evKind int
@@ -55,9 +64,10 @@ type Sched struct {
 	Prefix  []int
 	Trace   []Decision
 	// Err is set on a harness-level problem (watchdog, diverging prefix)
-	Err error
-	bodies []func()
-	names  []string
+	Err      error
+	Deadlock string // set when unfinished threads exist but none is enabled
+	bodies   []func()
+	names    []string
 }
 
 func New(prefix []int) *Sched {
@@ -87,7 +97,11 @@ func (s *Sched) Point(name string) {
 		s.byGID[gid] = t
 		adopted = true
 	}
+	if t.adopted && t.blocked {
+		adopted = false // registered while blocked on a lock; now it simply parks like any thread
+	}
 	t.at = name
+	t.parked = true
 	s.mu.Unlock()
 	if adopted {
 		s.adoptCh <- t
@@ -95,24 +109,6 @@ func (s *Sched) Point(name string) {
 		s.events <- event{t, evParked}
 	}
 	<-t.resume
-}
-
-// CallReturned is called by the DB wrapper's After hook: an adopted background goroutine is considered finished
-// when the call it was parked before has returned (the mint's watcher makes exactly one store call after waking).
-func (s *Sched) CallReturned() {
-	if s.free.Load() {
-		return
-	}
-	gid := dbwrap.GID()
-	s.mu.Lock()
-	t := s.byGID[gid]
-	s.mu.Unlock()
-	if t != nil && t.adopted && !t.done {
-		s.mu.Lock()
-		t.done = true
-		s.mu.Unlock()
-		s.events <- event{t, evDone}
-	}
 }
 
 // WaitAdopted blocks the calling (running) thread until n background goroutines have parked at their first point.
@@ -128,6 +124,232 @@ func (s *Sched) WaitAdopted(n int) bool {
 	return true
 }
 
+// AdoptBackground is called by the running harness thread after it woke background goroutines of the code under
+// test (pairs of {owner goroutine, helper goroutine that hands the event over and exits}). It returns when every
+// owner has parked at its first point (adopted as a schedulable thread), is blocked on a lock held by a parked
+// thread (adopted as a blocked thread), or has finished / gone quiet without reaching any point.
+func (s *Sched) AdoptBackground(pairs [][2]int64) bool {
+	deadline := time.Now().Add(watchdog)
+	for _, pr := range pairs {
+		owner, helper := pr[0], pr[1]
+		for {
+			s.mu.Lock()
+			t := s.byGID[owner]
+			parked := t != nil && !t.done && t.parked
+			s.mu.Unlock()
+			if parked {
+				select {
+				case <-s.adoptCh:
+				default:
+				}
+				break
+			}
+			st := gstates()
+			if _, alive := st[helper]; alive && helper != 0 {
+				// the event has not been handed over yet
+			} else if os, ok := st[owner]; !ok {
+				break // exited without touching the store
+			} else if lockState(os) {
+				s.mu.Lock()
+				if s.byGID[owner] == nil || s.byGID[owner].done {
+					nt := &thread{id: len(s.threads), name: "bg", gid: owner, resume: make(chan struct{}), adopted: true, blocked: true, at: "lock"}
+					s.threads = append(s.threads, nt)
+					s.byGID[owner] = nt
+				}
+				s.mu.Unlock()
+				break
+			} else if !activeState(os) {
+				// waiting for something else than a lock: re-check once the helper is gone (handled above); quiet => nothing to adopt
+				s.mu.Lock()
+				t := s.byGID[owner]
+				parkedNow := t != nil && !t.done && t.parked
+				s.mu.Unlock()
+				if !parkedNow {
+					break
+				}
+				continue
+			}
+			if time.Now().After(deadline) {
+				s.Err = fmt.Errorf("watchdog: background goroutine did not settle")
+				return false
+			}
+			time.Sleep(20 * time.Microsecond)
+		}
+	}
+	return true
+}
+
+// gstates returns the wait state of every goroutine ("running", "runnable", "syscall", "sync.Mutex.Lock", "chan receive", ...).
+func gstates() map[int64]string {
+	buf := make([]byte, 1<<18)
+	for {
+		n := runtime.Stack(buf, true)
+		if n < len(buf) {
+			buf = buf[:n]
+			break
+		}
+		buf = make([]byte, 2*len(buf))
+	}
+	out := map[int64]string{}
+	for _, blk := range bytes.Split(buf, []byte("\n\n")) {
+		if !bytes.HasPrefix(blk, []byte("goroutine ")) {
+			continue
+		}
+		rest := blk[len("goroutine "):]
+		sp := bytes.IndexByte(rest, ' ')
+		if sp < 0 {
+			continue
+		}
+		id, err := strconv.ParseInt(string(rest[:sp]), 10, 64)
+		if err != nil {
+			continue
+		}
+		lb := bytes.IndexByte(rest, '[')
+		rb := bytes.IndexByte(rest, ']')
+		if lb < 0 || rb < lb {
+			continue
+		}
+		st := string(rest[lb+1 : rb])
+		if c := bytes.IndexByte([]byte(st), ','); c >= 0 {
+			st = st[:c]
+		}
+		out[id] = st
+	}
+	return out
+}
+
+// WaitGone waits until the goroutines have exited (used by sequential worlds to wait for the mint's watcher).
+func WaitGone(gids []int64, limit time.Duration) bool {
+	deadline := time.Now().Add(limit)
+	for {
+		st := gstates()
+		alive := false
+		for _, g := range gids {
+			if _, ok := st[g]; ok {
+				alive = true
+			}
+		}
+		if !alive {
+			return true
+		}
+		if time.Now().After(deadline) {
+			return false
+		}
+		time.Sleep(50 * time.Microsecond)
+	}
+}
+
+func lockState(st string) bool {
+	switch st {
+	case "sync.Mutex.Lock", "sync.RWMutex.Lock", "sync.RWMutex.RLock", "semacquire":
+		return true
+	}
+	return false
+}
+
+func activeState(st string) bool {
+	return st == "running" || st == "runnable" || st == "syscall"
+}
+
+// drain consumes pending events (parked flags are set by Point itself; done flags here).
+func (s *Sched) drain() {
+	for {
+		select {
+		case ev := <-s.events:
+			if ev.kind == evDone {
+				s.mu.Lock()
+				ev.t.done = true
+				s.mu.Unlock()
+			}
+		default:
+			return
+		}
+	}
+}
+
+// await waits until thread t has parked at a point, finished, blocked on a lock, or (adopted threads) gone quiet.
+// Returns false on watchdog.
+func (s *Sched) await(t *thread) bool {
+	deadline := time.Now().Add(watchdog)
+	spin := 0
+	for {
+		s.drain()
+		s.mu.Lock()
+		ok := t.parked || t.done
+		s.mu.Unlock()
+		if ok {
+			return true
+		}
+		spin++
+		if spin < 200 {
+			runtime.Gosched()
+			continue
+		}
+		if spin%20 == 0 {
+			st, ok := gstates()[t.gid]
+			s.mu.Lock()
+			settled := t.parked || t.done
+			s.mu.Unlock()
+			switch {
+			case settled:
+				return true
+			case ok && lockState(st):
+				s.mu.Lock()
+				t.blocked = true
+				s.mu.Unlock()
+				return true
+			case t.adopted && (!ok || !activeState(st)):
+				// background goroutine exited or went back to waiting for the environment: its step is over
+				s.mu.Lock()
+				t.done = true
+				s.mu.Unlock()
+				return true
+			}
+		}
+		if time.Now().After(deadline) {
+			return false
+		}
+		time.Sleep(20 * time.Microsecond)
+	}
+}
+
+// settleBlocked re-examines threads that were blocked on a lock: those that got the lock have either parked at their
+// next point (event consumed here) or finished.
+func (s *Sched) settleBlocked() bool {
+	for {
+		s.mu.Lock()
+		var pend []*thread
+		for _, t := range s.threads {
+			if t.blocked && !t.done {
+				pend = append(pend, t)
+			}
+		}
+		s.mu.Unlock()
+		if len(pend) == 0 {
+			return true
+		}
+		states := gstates()
+		progressed := false
+		for _, t := range pend {
+			st, ok := states[t.gid]
+			if ok && lockState(st) {
+				continue // still waiting for the lock
+			}
+			// it is running towards its next point: wait for that
+			s.mu.Lock()
+			t.blocked = false
+			s.mu.Unlock()
+			if !s.await(t) {
+				return false
+			}
+			progressed = true
+		}
+		if !progressed {
+			return true
+		}
+	}
+}
+
 // Run starts the declared threads and schedules until every thread has finished.
 func (s *Sched) Run() {
 	s.free.Store(false)
@@ -141,13 +363,11 @@ func (s *Sched) Run() {
 			s.mu.Lock()
 			s.byGID[t.gid] = t
 			t.at = "begin"
+			t.parked = true
 			s.mu.Unlock()
 			close(ready)
 			<-t.resume
 			body()
-			s.mu.Lock()
-			t.done = true
-			s.mu.Unlock()
 			s.events <- event{t, evDone}
 		}()
 		<-ready
@@ -158,8 +378,12 @@ func (s *Sched) Run() {
 		s.mu.Lock()
 		var enabled []int
 		runEn := false
+		unfinished := 0
 		for _, t := range s.threads {
-			if !t.done && t.id == running {
+			if !t.done {
+				unfinished++
+			}
+			if !t.done && !t.blocked && t.id == running {
 				runEn = true
 			}
 		}
@@ -167,12 +391,16 @@ func (s *Sched) Run() {
 			enabled = append(enabled, running)
 		}
 		for _, t := range s.threads {
-			if !t.done && t.id != running {
+			if !t.done && !t.blocked && t.id != running {
 				enabled = append(enabled, t.id)
 			}
 		}
 		s.mu.Unlock()
 		if len(enabled) == 0 {
+			if unfinished > 0 {
+				s.Deadlock = fmt.Sprintf("%d unfinished thread(s), all blocked on locks", unfinished)
+				s.free.Store(true)
+			}
 			break
 		}
 		choice := 0
@@ -188,17 +416,17 @@ func (s *Sched) Run() {
 		t := s.threads[enabled[choice]]
 		s.Trace = append(s.Trace, Decision{Enabled: enabled, Chosen: choice, At: t.name + ":" + t.at, RunningEnabled: runEn})
 		step++
+		s.mu.Lock()
+		t.parked = false
+		s.mu.Unlock()
 		t.resume <- struct{}{}
-		select {
-		case ev := <-s.events:
-			if ev.t != t {
-				s.Err = fmt.Errorf("event from thread %d while %d was running", ev.t.id, t.id)
-				s.free.Store(true)
-				s.releaseAll()
-				return
-			}
-		case <-time.After(watchdog):
+		if !s.await(t) {
 			s.Err = fmt.Errorf("watchdog: thread %s did not park or finish after %s", t.name, t.at)
+			s.free.Store(true)
+			return
+		}
+		if !s.settleBlocked() {
+			s.Err = fmt.Errorf("watchdog: a thread released from a lock did not park or finish")
 			s.free.Store(true)
 			return
 		}
